@@ -22,6 +22,13 @@ Entry points: `gen_xsd_schema.build_schema(m, c_c)` (the ElementTree element) an
   K  the same canonical trees from the Lean model: `xsd d`, `xsd (applyXEdits es d)` and
      `render (specEdits (xresolveAll d es) (xsdSpec d))`.
 
+Descriptions: about a third of the synthesised populations (and a quarter of the single-edit cases on the real model) carry
+NON-EMPTY description texts (Descrip of C_C, EP_PKG, S_DT, S_ENUM, O_OBJ, O_ATTR, R_REL, O_REF: ` -- `, `-----`, `--retries`,
+`-->`, `<!-- -->`, <, &, quotes, newlines, tabs, `]]>`, non-ASCII).  The property does not mention descriptions, so D demands the
+same declarations as without them (comment nodes declare nothing and are ignored) and that the schema is WELL-FORMED: the element
+returned by build_schema, written with ElementTree.tostring, parses with minidom and ElementTree to the same tree; main writes a
+file that parses (an ExpatError inside main is reported as not-well-formed); the `text` entry still compares character by character.
+
 Family session (patterns memoisation / aliasing / routes / two of a kind): ONE loaded population - build_schema and main for
 one component, then schemas of other components interleaved with edits of the population, mk_component (the SQL route) on the
 same population and scribbling over the tree returned last, at the end the first component again by both routes; diagrams
@@ -50,7 +57,9 @@ RULE = ('random class diagrams as for C14, every second one with XML-special / n
         'class to each container) and random scripts; plus same-named data types in different scopes (a type of the component named like a global one, of another kind) with edits on the inner one, and classes whose attributes are only partly on the R103 chain; plus the WRITTEN FILE character by character: for every third diagram (rows in modeled order, so the document order is defined) the text written by main equals the specified text (one element per line, four blanks per level, attribute order, the four replacements of minidom). Non-trivial: the component contains a class with a declared '
         'attribute and, if there are edits, they change the tree; distinct = distinct case content; plus sessions: 4-14 schemas '
         'by both routes from ONE loaded population interleaved with edits, mk_component on the same population and mutation of '
-        'the returned tree, on diagrams with same-key-letter classes in different components')
+        'the returned tree, on diagrams with same-key-letter classes in different components; a third of all synthesised populations '
+        'with non-empty description texts (--, -->, <, &, quotes, newlines) on every element kind, by both routes: same '
+        'declarations, well-formed output')
 EXHAUSTIVE = {'quick': False, 'thorough': False}
 ASSUMPTIONS = [
     'EP_PKGREF package references (the `for ep_pkg in many(ep_pkg).EP_PKG[1402, ...]` loop of is_contained_in) are not '
@@ -147,8 +156,11 @@ def generate(ctx):
             return not any(a['kind'][0] != 'derived' and E.py_base_type_name(dd, E.py_attr_dt(dd, a) or 0) for a in c['attrs'])
         good = [k['name'] for k in dd['containers'] if k['comp'] and
                 any(bare(c) and E.py_contained(dd, k['id'], c['parent']) for c in dd['classes'])]
-        yield {'src': 'synth', 'diagram': dd, 'comp': r.choice(good or comps), 'edits': _xscript(r, dd, r.randint(0, 2)),
-               'entry': 'build', 'perm': r.randint(1, 1 << 30)}
+        if j % 3 == 1:
+            dd['descr'] = r.randint(1, 1 << 30)
+        script = _xscript(r, dd, r.randint(0, 2))
+        yield {'src': 'synth', 'diagram': dd, 'comp': r.choice(good or comps), 'edits': script if j % 6 != 1 else [],
+               'entry': 'build' if j % 6 != 1 else 'main', 'perm': r.randint(1, 1 << 30)}
     # ---- two data types with the same name in scope (a component's type named like a global one), followed by edits on
     #      the inner one; classes whose attributes are only partly on the R103 chain.  The edit theorems assume unique type
     #      names and fully chained classes, so for these cases only the trees are compared (`nospec`), not the predicted
@@ -159,6 +171,8 @@ def generate(ctx):
         comps = [k for k in dd['containers'] if k['comp']]
         if not comps:
             continue
+        if j % 2 == 1:
+            dd['descr'] = r.randint(1, 1 << 30)
         twins = [t for t in dd['dts'] if sum(1 for u in dd['dts'] if u['name'] == t['name']) > 1 and not t.get('predef')]
         inside = [k['name'] for k in comps if any(E.py_contained(dd, k['id'], t['parent']) for t in twins)]
         loose_cls = {x[0] for x in dd.get('loose', [])}
@@ -190,6 +204,8 @@ def generate(ctx):
         comps = [k['name'] for k in dd['containers'] if k['comp']]
         if not comps:
             continue
+        if j % 2 == 0:
+            dd['descr'] = r.randint(1, 1 << 30)
         nm0 = r.choice(comps)
         steps = [['xsd', 'build', nm0], ['xsd', 'main', nm0]]
         cur = dd
@@ -215,7 +231,8 @@ def generate(ctx):
     for edits in _real_sites(d):
         i += 1
         yield {'src': 'real', 'model': 'simple', 'comp': 'Comp', 'edits': edits, 'entry': 'build',
-               'perm': rng.randint(1, 1 << 30) if i % 3 == 0 else None}
+               'perm': rng.randint(1, 1 << 30) if i % 3 == 0 else None,
+               'descr': rng.randint(1, 1 << 30) if i % 4 == 0 else None}
     for j in range(ctx.pick(60, 800)):
         r = rng.fork('real', j)
         yield {'src': 'real', 'model': 'simple', 'comp': 'Comp', 'edits': _xscript(r, d, r.randint(2, ctx.pick(4, 8))),
@@ -224,6 +241,9 @@ def generate(ctx):
     for i in range(n):
         r = rng.fork('synth', i)
         d = E.gen_diagram(r, max_classes=ctx.pick(5, 7), special_names=(i % 2 == 0), empty_enum=True)
+        if i % 4 in (1, 2):
+            # NON-EMPTY descriptions on every element kind (with --, <, &, quotes, newlines): no part of what is mirrored
+            d['descr'] = r.randint(1, 1 << 30)
         comps = [k['name'] for k in d['containers'] if k['comp']]
         if not comps or r.random() < 0.03:
             yield {'src': 'synth', 'diagram': d, 'comp': 'NoSuchComponent', 'edits': [], 'entry': 'main',
@@ -237,6 +257,38 @@ def generate(ctx):
         if i % 3 == 0:
             # the written file, character by character (rows in modeled order: the document order is then defined)
             yield {'src': 'synth', 'diagram': d, 'comp': r.choice(comps), 'edits': [], 'entry': 'text', 'perm': None}
+
+
+def _serialised_ok(el, got, fail, when=''):
+    """the schema returned by build_schema, written out with ElementTree, is well-formed for both parsers and denotes the
+    same declarations (comments declare nothing)"""
+    import xml.dom.minidom
+    import xml.etree.ElementTree as ET
+    try:
+        data = ET.tostring(el)
+        t1 = E.canon_xml(E.tree_of_minidom(xml.dom.minidom.parseString(data).documentElement))
+        t2 = E.canon_xml(E.tree_of_etree_parsed(ET.fromstring(data)))
+    except Exception as ex:
+        fail('not-well-formed', '%sthe schema returned by build_schema, written with ElementTree.tostring, does not parse: '
+             '%s: %s' % (when, type(ex).__name__, ex))
+        return
+    if t1 != got or t2 != got:
+        fail('file-differs', '%sthe serialised schema reads back as %s / %s, build_schema returned %s'
+             % (when, json.dumps(t1), json.dumps(t2), json.dumps(got)))
+
+
+def _call_main(gen_xsd, argv, fail):
+    """gen_xsd_schema.main; an exception of the XML machinery means the document it built is not well-formed"""
+    import logging
+    import xml.parsers.expat
+    try:
+        gen_xsd.main(argv)
+        return True
+    except (xml.parsers.expat.ExpatError, SyntaxError, ValueError) as ex:
+        fail('not-well-formed', 'main fails while writing the schema: %s: %s' % (type(ex).__name__, ex))
+        return False
+    finally:
+        logging.disable(logging.CRITICAL)
 
 
 def _comp_id(d, name):
@@ -270,20 +322,16 @@ def run_impl(case):
         loader, path = C14._loader_for(case, tmpdir)
         if entry == 'text':
             out = os.path.join(tmpdir, 'schema.xsd')
-            import logging
-            try:
-                gen_xsd.main(['-c', name, '-o', out, path])
-            finally:
-                logging.disable(logging.CRITICAL)
-            text = open(out, encoding='utf-8').read()
+            text = open(out, encoding='utf-8').read() if _call_main(gen_xsd, ['-c', name, '-o', out, path], fail) else ''
             want = E.py_file_text(E.py_xsd_tree(d0, comp), lambda tag: E.XSD_ATTR_ORDER.get(tag, []))
             if text != want:
                 k = next((j for j in range(min(len(text), len(want))) if text[j] != want[j]), min(len(text), len(want)))
                 fail('file-text', 'the written file differs from the specified text at offset %d: written %r, specified %r'
                      % (k, text[max(0, k - 40):k + 40], want[max(0, k - 40):k + 40]))
             try:
-                xml.dom.minidom.parseString(text.encode('utf-8'))
-                ET.fromstring(text.encode('utf-8'))
+                if not fails:
+                    xml.dom.minidom.parseString(text.encode('utf-8'))
+                    ET.fromstring(text.encode('utf-8'))
             except Exception as ex:
                 fail('not-well-formed', 'the written file does not parse: %s: %s' % (type(ex).__name__, ex))
             key = hashlib.sha1(json.dumps(case, sort_keys=True, default=str).encode()).hexdigest()
@@ -297,27 +345,33 @@ def run_impl(case):
             c_c = m.select_any('C_C', xtuml.where_eq(Name=name))
             if c_c is None:
                 raise HarnessError('build entry needs an existing component')
-            got0 = E.canon_xml(E.tree_of_element(gen_xsd.build_schema(m, c_c)))
+            if case.get('descr') is not None:
+                E.pop_set_descriptions(m, case['descr'])
+            el = gen_xsd.build_schema(m, c_c)
+            got0 = E.canon_xml(E.tree_of_element(el))
+            _serialised_ok(el, got0, fail)
             got1 = got0
             if edits:
                 for e in edits:
                     E.pop_apply_xedit(m, e)
-                got1 = E.canon_xml(E.tree_of_element(gen_xsd.build_schema(m, c_c)))
+                el = gen_xsd.build_schema(m, c_c)
+                got1 = E.canon_xml(E.tree_of_element(el))
+                if not fails:
+                    _serialised_ok(el, got1, fail, 'after the edits ')
             obs = ['ok', got0, got1]
         else:
             out = os.path.join(tmpdir, 'schema.xsd')
             try:
-                import logging
+                ok = _call_main(gen_xsd, ['-c', name, '-o', out, path], fail)
+                text = open(out, encoding='utf-8').read() if ok else ''
                 try:
-                    gen_xsd.main(['-c', name, '-o', out, path])
-                finally:
-                    logging.disable(logging.CRITICAL)
-                text = open(out, encoding='utf-8').read()
-                try:
+                    if not ok:
+                        raise ValueError('nothing written')
                     t1 = E.canon_xml(E.tree_of_minidom(xml.dom.minidom.parseString(text.encode('utf-8')).documentElement))
                     t2 = E.canon_xml(E.tree_of_etree_parsed(ET.fromstring(text.encode('utf-8'))))
                 except Exception as ex:     # not well-formed
-                    fail('not-well-formed', 'the written file does not parse: %s: %s' % (type(ex).__name__, ex))
+                    if ok:
+                        fail('not-well-formed', 'the written file does not parse: %s: %s' % (type(ex).__name__, ex))
                     t1 = t2 = ['unparseable', [], []]
                 if t1 != t2:
                     fail('parsers-disagree', 'minidom reads %s, ElementTree reads %s' % (json.dumps(t1), json.dumps(t2)))
@@ -424,14 +478,13 @@ def _run_session(case, stats):
                 c_c = m.select_any('C_C', xtuml.where_eq(Name=name))
                 last = gen_xsd.build_schema(m, c_c)
                 got = E.canon_xml(E.tree_of_element(last))
+                _serialised_ok(last, got, lambda sig, what: fail(sig, what, i))
                 if before is not None and E.normal_diagram(E.decode(m)) != before:
                     fail('population-modified', 'build_schema changed the ooaofooa population it was given', i)
             else:
                 out = os.path.join(tmpdir, 'schema%d.xsd' % i)
-                try:
-                    gen_xsd.main(['-c', name, '-o', out, path])
-                finally:
-                    logging.disable(logging.CRITICAL)
+                if not _call_main(gen_xsd, ['-c', name, '-o', out, path], lambda sig, what: fail(sig, what, i)):
+                    break
                 text = open(out, encoding='utf-8').read()
                 got = E.canon_xml(E.tree_of_minidom(xml.dom.minidom.parseString(text.encode('utf-8')).documentElement))
             answers.append(['ok', got])
